@@ -28,6 +28,8 @@ FULL_JOIN_EMULATION = False
 
 PINF = C.PINF
 NINF = C.NINF
+# per job: model SQL integer / integer exactly (truncation) instead of tainting it as the accepted "integer /" difference
+INT_DIV_EXACT = [False]
 
 
 def _inf_sign(c):
@@ -665,8 +667,17 @@ class Interp:
             return Cell(null, v, "i" if isint else "f", dc, kf)
         if op == "/":
             y = C.real(b)
+            if isint and INT_DIV_EXACT[0]:
+                # integer / integer in SQLite and PostgreSQL: truncation toward zero.  Used where the SQL "/" does not come from the user's "/"
+                # (the accepted difference) but from the translation of another operator (//): then its value matters.
+                q = C.real(a) / z3.If(y == 0, z3.RealVal(1), y)
+                return Cell(null, z3.If(q >= 0, z3.ToInt(q), -z3.ToInt(-q)), "i", zor(dc, y == 0), kf)
             # integer / integer: destination convention (accepted difference); x/0: NULL in SQLite, error in PG -> outside claim
-            dc = zor(dc, y == 0, TRUE if isint else FALSE)
+            dc = zor(dc, TRUE if isint else FALSE)
+            if self.dialect == "sqlite" and "division_by_zero" in pdshim.KF_ON:
+                null = zor(null, y == 0)  # SQLite: division by zero is NULL (the Pandas side carries the known-finding taint for x/0, x != 0)
+            else:
+                dc = zor(dc, y == 0)
             return Cell(null, C.real(a) / z3.If(y == 0, z3.RealVal(1), y), "f", dc, kf)
         if op == "%":
             return Cell(null, z3.IntVal(0) if isint else z3.RealVal(0), "i" if isint else "f", TRUE, kf)
